@@ -188,6 +188,10 @@ func (lalr *LALR1) CaclIncludeRelation(tr int) []Relation {
 		for Dot, sycheck := range r.RighPart {
 			if sy == sycheck && lalr.seqenceCanEpsilon(r.RighPart[Dot+1:]) {
 				for _, q := range lalr.fechStateNumber(index) {
+					// (p, A) includes (p', B) only if p' --beta--> p
+					if p, ok := lalr.walk(q, r.RighPart[:Dot]); !ok || p != lalr.trans[tr].q {
+						continue
+					}
 					if to_index, err := lalr.fetchTransIndex(q, int(LeftSy.ID)); err == nil {
 						res = append(res, Relation{x: tr, y: to_index})
 					}
@@ -220,6 +224,10 @@ func (lalr *LALR1) CalcLookbacks() []Relation {
 		for tr_2 := range lalr.DRSet {
 			SyIndex := lalr.trans[tr_2].sym_or_rule
 			if SyIndex == leftPart.ID {
+				// (q, A->w) lookback (p, A) only if p --w--> q
+				if q, ok := lalr.walk(lalr.trans[tr_2].q, lalr.G.ProductoinRules[ruleIndex].RighPart); !ok || q != tr.q {
+					continue
+				}
 				// trIndex lookback tr2
 				res = append(res, Relation{x: trIndex, y: tr_2})
 			}
